@@ -41,6 +41,9 @@ CHECKS = {
  'C11': dict(cat='exploration', engine='E2', tech='bounded-exhaustive enumeration of model x parameter lattice x pressure lattice against independent numerical quadrature; point isotherms against the definition',
    text='13 models exposing a spreading pressure x parameter lattice x 6 fractions of the validity range: value against two independent quadratures of the same model loading/p (linear with break points; over ln p to -inf), zero limit, monotonicity, additivity over intervals, p dpi/dp = n, and a query after an in-place parameter change; 36 point isotherms (4 curve shapes x 3/5/9 points x float/int/series pressures) x queries below the first point, at every knot and mid-segment and at the last point against the Henry-continued piecewise-linear interpolant integrated exactly; unit arguments (pressure unit/mode, loading unit/basis, material unit) for point and model isotherms.',
    note='scipy quadrature trusted where two formulations agree to 1e-8; queries beyond the last data point are outside the property.', ref='§4 C11'),
+ 'C12': dict(cat='exploration', engine='E2', tech='bounded-exhaustive enumeration of model x generator x sampling grid fits; exhaustive sub-lists for best-of-list; differential oracles for branch, units, sequences',
+   text='Exact data from independently written defining equations for the 10 well-posed models x generating parameter vectors x {8,20,60} x {linear, log} grids must be reproduced by the fit; for all 16 models x 4 deterministic noisy data sets the reported rmse must equal the recomputed normalised rms deviation; ModelIsotherm.guess over every 2- and 3-element sub-list of the guess models (plus lists containing a candidate that fails) must return the converged candidate of smallest error; user bounds/guesses, a bounded-then-plain fit sequence, branch isolation in both directions, from_modelisotherm (3 ways) with refit, and the fit after 6 unit conversions (predictions compared).',
+   note='Fits raising CalculationError count as did-not-return; unit covariance on predictions at 1e-5.', ref='§4 C12'),
 }
 
 def main():
